@@ -83,7 +83,10 @@ def array(e, n):
 
 
 def carray(e, n):
-    return {'cpp': '%s[%d]' % (e['cpp'], n), 'sig': seq_sig(e, n), 'integral': False, 'ty': ('seq', 'carray', e, n)}
+    # an array of C arrays is spelled with the new (outer) extent first: int[2][3] is 2 arrays of int[3]
+    base, _, ext = e['cpp'].partition('[')
+    cpp = '%s[%d]%s' % (base, n, '[' + ext if ext else '')
+    return {'cpp': cpp, 'sig': seq_sig(e, n), 'integral': False, 'ty': ('seq', 'carray', e, n)}
 
 
 def tup(*es):
@@ -184,6 +187,7 @@ def catalogue():
          ent(i32, 1), ent(wi, 1), ent(i32, 1, False), ent(wi, 1, False), ent(i32, 2), ent(s, 1),
          fn(i32, i32, s), fn(i32, wi, s), fn(None, vector(i32)), fn(None, array(i32, 3)), fn(i32, s, i32),
          fn(i32, cref(s), i32), fn(None, cref(vector(i32))), fn(i32, cref(i32), cref(s)),
+         carray(carray(i32, 3), 2), carray(carray(i32, 4), 2), array(carray(i32, 3), 2), array(carray(i32, 4), 2), array(array(i32, 3), 2),
          tup(vector(i32), f32), tup(array(i32, 3), f32), pair(vector(i32), f32), tup(wi, s), array(tup(i32, s), 2), vector(pair(wi, s))]
     return c
 
